@@ -1,9 +1,12 @@
 """C05 — canonical proto3 JSON mapping."""
-AREAS = ["time"]
+AREAS = ["time", "jsonscalar"]
 LEVEL = "other"
 EXPLANATION = (
-    "Bounded differential against google.protobuf.json_format in both directions on the stand-in corpus; deductive part "
-    "limited to the Timestamp / Duration converters.")
+    "Bounded differential against google.protobuf.json_format in both directions on the stand-in corpus; deductive part: "
+    "the scalar helpers _scalar_to_json / _dump_float produce exactly the canonical form JSONS (64-bit integers as decimal "
+    "strings, bytes as base64, non-finite floats as the three strings), _scalar_from_json / _map_key_from_json read it back "
+    "(spec/jsonmap.py, written from the proto3 JSON mapping), plus the Timestamp / Duration converters. The per-field composition "
+    "in to_dict / _from_dict_init is decided by the bounded differential.")
 ASSUMED = ["to_dict / _from_dict_init are not under contract: bounded differential only"]
 from pyvc.check import standin_bounded
 BOUNDED = [standin_bounded("C05")]
